@@ -53,16 +53,17 @@ type report struct {
 	Degraded []string          `json:"degraded"`
 }
 type pkgRp struct {
-	Files       int      `json:"files"`
-	MapRanges   int      `json:"map_ranges"`
-	GoStmts     int      `json:"go_stmts"`
-	ChanOps     int      `json:"chan_ops"`
-	MapAccess   int      `json:"map_accesses"`
-	FieldAccess int      `json:"field_accesses"`
-	Selects     int      `json:"selects"`
-	TimeSwaps   int      `json:"time_import_swaps"`
-	SyncSwaps   int      `json:"sync_import_swaps"`
-	TypeErrors  []string `json:"type_errors,omitempty"`
+	Files        int      `json:"files"`
+	MapRanges    int      `json:"map_ranges"`
+	GoStmts      int      `json:"go_stmts"`
+	ChanOps      int      `json:"chan_ops"`
+	MapAccess    int      `json:"map_accesses"`
+	FieldAccess  int      `json:"field_accesses"`
+	ForeignCalls int      `json:"foreign_object_calls"`
+	Selects      int      `json:"selects"`
+	TimeSwaps    int      `json:"time_import_swaps"`
+	SyncSwaps    int      `json:"sync_import_swaps"`
+	TypeErrors   []string `json:"type_errors,omitempty"`
 }
 
 func main() {
@@ -351,6 +352,7 @@ func (fc *fileCtx) walkBlocks() {
 		fc.rewriteExprs()
 	}
 	if *level >= 3 && fc.generics {
+		fc.rewriteForeignCalls()
 		fc.rewriteMapAccesses()
 		if fc.wantFields(fc.rel) || *fieldTypesF != "" {
 			fc.rewriteFieldAccesses()
